@@ -11,7 +11,8 @@ use std::io::{BufRead, Write};
 pub mod generated {
     include!(concat!(env!("OUT_DIR"), "/gen/mod.rs"));
 }
-use generated::*;
+// `pub`: the code generated for `use m as p` is `pub use crate::m as p;`, which needs `crate::m` to be public
+pub use generated::*;
 
 pub trait Dyn: Sized {
     fn to_v(&self) -> V;
@@ -57,15 +58,29 @@ macro_rules! tuple_dyn {
         }
     )*};
 }
-tuple_dyn!((A 0) (A 0, B 1) (A 0, B 1, C 2) (A 0, B 1, C 2, D 3));
+tuple_dyn!((A 0) (A 0, B 1) (A 0, B 1, C 2) (A 0, B 1, C 2, D 3) (A 0, B 1, C 2, D 3, E 4) (A 0, B 1, C 2, D 3, E 4, F 5)
+    (A 0, B 1, C 2, D 3, E 4, F 5, G 6) (A 0, B 1, C 2, D 3, E 4, F 5, G 6, H 7) (A 0, B 1, C 2, D 3, E 4, F 5, G 6, H 7, I 8)
+    (A 0, B 1, C 2, D 3, E 4, F 5, G 6, H 7, I 8, J 9) (A 0, B 1, C 2, D 3, E 4, F 5, G 6, H 7, I 8, J 9, K 10)
+    (A 0, B 1, C 2, D 3, E 4, F 5, G 6, H 7, I 8, J 9, K 10, L 11));
 
 include!(concat!(env!("OUT_DIR"), "/glue.rs"));
 
 fn run_case(k: usize, ret: &V, program: &str) -> (String, String, String, String) {
     let mut files: std::collections::HashMap<std::path::PathBuf, String> = std::collections::HashMap::new();
     files.insert("main.abra".into(), program.to_string());
-    files.insert("sigs.abra".into(), sigs_abra());
-    let prog = match std::panic::catch_unwind(|| abra_core::compile_bytecode("main.abra", abra_core::MockFileProvider::new(files))) {
+    for (path, text) in abra_files() {
+        files.insert(path.into(), text);
+    }
+    // both entry points: the plain one (main.abra imports sigs) and the one that takes the host-function file as
+    // a second root
+    let second_root = program.len() % 2 == 0;
+    let prog = match std::panic::catch_unwind(|| {
+        if second_root {
+            abra_core::compile_bytecode_with_host_funcs("main.abra", "sigs.abra", abra_core::MockFileProvider::new(files))
+        } else {
+            abra_core::compile_bytecode("main.abra", abra_core::MockFileProvider::new(files))
+        }
+    }) {
         Ok(Ok(p)) => p,
         Ok(Err(e)) => return ("-".into(), "-".into(), hex(b""), format!("rejected:{}", hex(e.to_string().as_bytes()))),
         Err(e) => return ("-".into(), "-".into(), hex(b""), format!("crash:{}", hex(format!("compiler panic: {}", panic_text(e)).as_bytes()))),
@@ -143,7 +158,9 @@ fn drive(rt: &mut Runtime, k: usize, ret: &V, printed: &mut String, seen_k: &mut
 
 fn main() {
     if std::env::args().nth(1).as_deref() == Some("--dump-sigs") {
-        print!("{}", sigs_abra());
+        for (p, t) in abra_files() {
+            println!("// ---- {p}\n{t}");
+        }
         return;
     }
     std::panic::set_hook(Box::new(|_| {}));
